@@ -17,6 +17,19 @@ from common import *
 from props.c33_util import gen_schema, S_BASIC
 
 K_CONFLICT = "inherited-field-signature-conflict"
+K_EXTREQ = "input-extension-adds-required-field"
+
+
+def extension_required_fields(text):
+    """{(T, f)}: input object field f that an `extend input T { .. }` block of the document adds with a non-null type
+    and no default value"""
+    out = set()
+    for m in re.finditer(r"^extend input (\w+)[^{\n]*\{\n(.*?)^\}", text, re.S | re.M):
+        for line in m.group(2).split("\n"):
+            f = re.match(r"\s+(\w+): (\[*\w+[\]!]*)(.*)$", line)
+            if f and f.group(2).endswith("!") and not f.group(3).lstrip().startswith("="):
+                out.add((m.group(1), f.group(1)))
+    return out
 # Repaired in the repository (fixes/fix2-c32-1..4.patch), no longer known classes: an object extension repeating
 # `implements` (a VIOLATION now, also through the facts oracle `duplicate-implements`), more than 500 list wrappers
 # (MAX_TY_DEPTH), the todo! panic on union / custom scalar fields, the unbounded selection recursion and operations
@@ -248,6 +261,10 @@ def run(ctx):
             kinds = set(cls[len("validate/"):].split("+"))
             if kinds <= {"InvalidImplementationFieldType", "MissingInterfaceFieldArgument"} and f["conflict"] == "1":
                 known = K_CONFLICT
+        if cls == "validate/RequiredField":
+            named = set(re.findall(r"the required field `(\w+)\.(\w+)` is not provided", detail))
+            if named and named <= extension_required_fields(text) and len(named) == len(detail.split(" || ")):
+                known = K_EXTREQ
         if known and ctx.known_hit(known):
             fam["known"] += 1
             continue
